@@ -415,6 +415,14 @@ theorem bad_mono (v : Nat) : ∀ (st : Stmt) (s : AState), Bad nIn s → Bad nIn
     cases s.halted
     · exact h
     · exact h
+  | .widen ws, s, h => by
+    unfold exec
+    cases s.halted
+    · simp only [cond_false]
+      rcases h with h | h
+      · left; simp only [h, Bool.true_or]
+      · exact Or.inr h
+    · exact h
 
 theorem badList_mono (v : Nat) : ∀ (p : List Stmt) (s : AState), Bad nIn s → Bad nIn (execList v p s)
   | [], s, h => by unfold execList; exact h
@@ -462,6 +470,43 @@ theorem eq_of_compat_ge {c r : Nat} (h : compat W nIn c r) (hc : W.base ≤ c) :
   rcases h with ⟨h1, _⟩ | ⟨_, h2⟩
   · omega
   · exact h2
+
+/-- a weak update only enlarges the region set of a bound variable: whatever the environment covered, it still covers -/
+theorem relEnv_widenRound {ce : List (Nat × CVal)} (links : List (Nat × Nat × Nat)) (must : List (Nat × Nat)) (next : Nat) :
+    ∀ (ws : List (Nat × Expr)) (ae : List (Nat × Ref)), RelEnv W nIn ce ae → RelEnv W nIn ce (widenRound links must next ws ae)
+  | [], ae, h => by unfold widenRound; exact h
+  | (x, e) :: rest, ae, h => by
+    unfold widenRound
+    cases hl : lookup ae x with
+    | none => exact relEnv_widenRound links must next rest ae h
+    | some o =>
+      apply relEnv_widenRound links must next rest
+      intro y
+      unfold lookup
+      cases hxy : Nat.beq x y
+      · simpa using h y
+      · have e' := Nat.eq_of_beq_eq_true hxy
+        subst e'
+        rcases h x with ⟨_, h2⟩ | ⟨c, r, h1, h2, h3⟩
+        · rw [hl] at h2; cases h2
+        · rw [hl] at h2
+          injection h2 with h2
+          subst h2
+          right
+          obtain ⟨r0, hr0, hc0⟩ := h3.1
+          exact ⟨c, _, h1, rfl, ⟨r0, mem_or.mpr (Or.inl hr0), hc0⟩, fun hh => by cases hh⟩
+
+theorem relEnv_widenFix {ce : List (Nat × CVal)} (links : List (Nat × Nat × Nat)) (must : List (Nat × Nat)) (next : Nat)
+    (ws : List (Nat × Expr)) : ∀ (fuel : Nat) (ae : List (Nat × Ref)), RelEnv W nIn ce ae →
+      RelEnv W nIn ce (widenFix links must next ws fuel ae).1
+  | 0, ae, h => by unfold widenFix; exact h
+  | fuel + 1, ae, h => by
+    unfold widenFix
+    have h1 := relEnv_widenRound (W := W) (nIn := nIn) links must next ws ae h
+    simp only []
+    cases natListBeq (widenMasks (widenRound links must next ws ae) ws) (widenMasks ae ws)
+    · simp only [cond_false]; exact relEnv_widenFix links must next ws fuel _ h1
+    · simp only [cond_true]; exact h1
 
 mutual
 /-- **statements**: every step keeps the invariant, whatever the valuation, the oracle and the effect of writes -/
@@ -629,6 +674,16 @@ theorem exec_inv (v : Nat) (ch : Nat → Nat) (w : Nat → Nat → Nat) :
       right
       exact ⟨rfl, h.next, h.env, h.fields, h.must, h.store, h.result⟩
     · simp only [if_true, cond_true]; exact Or.inr h
+  | .widen ws, cs, as, Or.inr h => by
+    unfold execC exec
+    cases hh : as.halted
+    · simp only [cond_false]
+      right
+      have he := relEnv_widenFix (W := W) (nIn := nIn) as.links as.must as.next ws (ws.length * (as.next + 1) + 1) as.env h.env
+      generalize widenFix as.links as.must as.next ws (ws.length * (as.next + 1) + 1) as.env = p at he ⊢
+      obtain ⟨env', ok⟩ := p
+      exact ⟨h.halted.trans hh, h.next, he, h.fields, h.must, h.store, h.result⟩
+    · simp only [cond_true]; exact Or.inr h
 
 theorem execList_inv (v : Nat) (ch : Nat → Nat) (w : Nat → Nat → Nat) :
     ∀ (p : List Stmt) (cs : CState) (as : AState), Inv W nIn cs as → Inv W nIn (execListC v ch w p cs) (execList v p as)
@@ -719,6 +774,38 @@ theorem relEnvR_cons {ce : List (Nat × CVal)} {ae : List (Nat × Ref)} (h : Rel
   cases Nat.beq x y
   · simpa using h y
   · right; exact ⟨c, r, rfl, rfl, hv⟩
+
+theorem relEnvR_widenRound {ce : List (Nat × CVal)} (links : List (Nat × Nat × Nat)) (must : List (Nat × Nat)) (next : Nat) :
+    ∀ (ws : List (Nat × Expr)) (ae : List (Nat × Ref)), RelEnvR W nIn ce ae → RelEnvR W nIn ce (widenRound links must next ws ae)
+  | [], ae, h => by unfold widenRound; exact h
+  | (x, e) :: rest, ae, h => by
+    unfold widenRound
+    cases hl : lookup ae x with
+    | none => exact relEnvR_widenRound links must next rest ae h
+    | some o =>
+      apply relEnvR_widenRound links must next rest
+      intro y
+      unfold lookup
+      cases hxy : Nat.beq x y
+      · simpa using h y
+      · have e' := Nat.eq_of_beq_eq_true hxy
+        subst e'
+        rcases h x with ⟨_, h2⟩ | ⟨c, r, h1, h2, _⟩
+        · rw [hl] at h2; cases h2
+        · right
+          exact ⟨c, _, h1, rfl, fun hh => by cases hh⟩
+
+theorem relEnvR_widenFix {ce : List (Nat × CVal)} (links : List (Nat × Nat × Nat)) (must : List (Nat × Nat)) (next : Nat)
+    (ws : List (Nat × Expr)) : ∀ (fuel : Nat) (ae : List (Nat × Ref)), RelEnvR W nIn ce ae →
+      RelEnvR W nIn ce (widenFix links must next ws fuel ae).1
+  | 0, ae, h => by unfold widenFix; exact h
+  | fuel + 1, ae, h => by
+    unfold widenFix
+    have h1 := relEnvR_widenRound (W := W) (nIn := nIn) links must next ws ae h
+    simp only []
+    cases natListBeq (widenMasks (widenRound links must next ws ae) ws) (widenMasks ae ws)
+    · simp only [cond_false]; exact relEnvR_widenFix links must next ws fuel _ h1
+    · simp only [cond_true]; exact h1
 
 mutual
 theorem execR_inv (v : Nat) (ch : Nat → Nat) (w : Nat → Nat → Nat) :
@@ -812,6 +899,15 @@ theorem execR_inv (v : Nat) (ch : Nat → Nat) (w : Nat → Nat → Nat) :
     · simp only [Bool.false_eq_true, if_false, cond_false]
       exact ⟨rfl, h.next, h.env, h.result⟩
     · simp only [if_true, cond_true]; exact h
+  | .widen ws, cs, as, h => by
+    unfold execC exec
+    cases hh : as.halted
+    · simp only [cond_false]
+      have he := relEnvR_widenFix (W := W) (nIn := nIn) as.links as.must as.next ws (ws.length * (as.next + 1) + 1) as.env h.env
+      generalize widenFix as.links as.must as.next ws (ws.length * (as.next + 1) + 1) as.env = p at he ⊢
+      obtain ⟨env', ok⟩ := p
+      exact ⟨h.halted.trans hh, h.next, he, h.result⟩
+    · simp only [cond_true]; exact h
 
 theorem execListR_inv (v : Nat) (ch : Nat → Nat) (w : Nat → Nat → Nat) :
     ∀ (p : List Stmt) (cs : CState) (as : AState), SimR W nIn cs as → SimR W nIn (execListC v ch w p cs) (execList v p as)
